@@ -3,7 +3,10 @@
 R16.1 (BytesAI) the NOFMT record body is exactly OBNAME(no-format object) || payload: two pieces in that order on every
       path, for payloads given as bytes, bytearray or str (strict ASCII encoding); nothing appended, sliced or replaced;
       the constructor stores the payload and the object unmodified and add_no_format_frame_data forwards both.
-R16.2 (effects + CFG) the per-logical-file list of NOFMT records is append-only and is yielded in list order.
+R16.2 (terms + CFG) add_no_format_frame_data builds exactly one record from its two arguments as they are and appends
+      that very record - on every normal path, exactly once - to one plain list field of the logical file (a keyed /
+      grouped container would change the order); that field is only ever initialised empty and appended to there;
+      the record generator yields the field as it is.
 Sizes (empty, 1 byte, larger than a record) rest on C15 R15.2 (flagged padding) and C02 (lossless segmentation).
 """
 
@@ -110,76 +113,156 @@ def run(chk):
         for q in it.consulted:
             chk.consulted_functions.add(q)
 
-    # add_no_format_frame_data forwards (object, data) positionally / by name, unmodified
+    run_record_list_part(chk, nf)
+    run_padding_part(chk)
+
+
+def run_record_list_part(chk, nf):
+    """R16.1 (forwarding) and R16.2 over the value-flow summaries: the API builds one record from its two arguments as
+    they are and appends that very record to one plain list owned by the logical file; nothing else writes that list;
+    the record generator yields the list as it is."""
+    from ..terms import (SELF, subterms, pp, neg, raise_conditions, call_recv, call_name, is_call, attr_stores,
+                         literals)
+    ix, te = chk.ix, chk.terms
     lf = ix.get_class("LogicalFile")
     add = lf.lookup("add_no_format_frame_data")
     chk.consult(add)
-    sc = Scope(ix, add)
-    ctor = [n for n in walk_local(add.node) if isinstance(n, ast.Call) and ix.infer(n.func, sc) == ("cls", nf)]
-    ok = len(ctor) == 1 and [norm(a) for a in ctor[0].args] + [f"{k.arg}={norm(k.value)}" for k in ctor[0].keywords] \
-        in (["no_format_object", "data"], ["no_format_object=no_format_object", "data=data"],
-            ["no_format_object", "data=data"])
-    chk.require(ok, "R16.1", "api-forwards-verbatim", "add_no_format_frame_data alters its arguments before building "
-                "the record", add.where)
+    s = te.inline(add, 3)
+    params = [p for p in add.param_names[1:]]
 
-    # every call appends exactly the record it built, unconditionally
+    own_init = "__init__" in nf.methods
+
+    def is_record_ctor(c):
+        if c[0] != "call" or c[1][0] == "attr" or c not in s.precise:
+            return False
+        tg = s.calls.get(c, ())
+        if own_init:
+            return any(f.name == "__init__" and f.cls is nf for f in tg)
+        return call_name(c) == nf.name
+    seen = []
+    for e in s.effects:
+        for t in (e.base, e.value):
+            if isinstance(t, tuple):
+                for x in subterms(t):
+                    if is_record_ctor(x) and x not in seen:
+                        seen.append(x)
+    for _, t, _n in s.returns:
+        for x in subterms(t):
+            if is_record_ctor(x) and x not in seen:
+                seen.append(x)
+    chk.require(len(seen) == 1, "R16.1", "api-builds-one-record",
+                f"add_no_format_frame_data builds {len(seen)} records per call ({[pp(x)[:60] for x in seen]})", add.where)
+    if len(seen) != 1:
+        return
+    rec = seen[0]
+    init = nf.lookup("__init__")
+    amap = te._bind_args(init, rec) or {}
+    want = {p: ("param", q) for p, q in zip(init.param_names[1:], params)}
+    got = {p: amap.get(p) for p in want}
+    chk.require(len(params) == 2 and got == want, "R16.1", "api-forwards-verbatim",
+                f"add_no_format_frame_data alters its arguments before building the record "
+                f"({ {k: pp(v) if v else None for k, v in got.items()} })", add.where)
+
+    # the path on which nothing is refused: every literal is the negation of a refusal condition
+    refusal = set()
+    for pc, _t in raise_conditions(s):
+        for c in pc:
+            refusal.update(literals(c))
+    def only_after_refusals(pc):
+        return all(neg(c) in refusal for c in pc)
+    appends = [e for e in s.effects if e.kind == "call" and is_call(e.value, "append", 1) and e.value[2][0] == rec]
+    others = [e for e in s.effects if e.kind == "call" and e.value[1][0] == "attr" and rec in e.value[2]
+              and e not in appends]
+    ok = len(appends) == 1 and not appends[0].ctx and only_after_refusals(appends[0].pc)
+    chk.require(ok, "R16.2", "every-payload-is-appended",
+                "a path through add_no_format_frame_data returns without appending the new record exactly once "
+                f"(append effects: {[(pp(e.value)[:60], [pp(c) for c in e.pc], [c[0] for c in e.ctx]) for e in appends + others]})",
+                add.where)
+    if len(appends) != 1:
+        return
+    # ... and no normal exit of the API avoids it (an early return inside a loop is invisible in the append's own path
+    # condition): in the API's flow graph every entry-to-return path passes the statement that performs the append
     from ..cfg import CFG, ENTRY, EXIT
+    ap = appends[0]
     g = CFG(add.node)
-    app = g.nodes_where(lambda s_: any(isinstance(x, ast.Call) and isinstance(x.func, ast.Attribute)
-                                       and x.func.attr == "append" and isinstance(x.func.value, ast.Attribute)
-                                       for x in ast.walk(s_))
-                        and not isinstance(s_, (ast.If, ast.For, ast.While, ast.Try, ast.With)))
-    chk.require(bool(app) and g.must_pass_through(app, ENTRY, EXIT, exceptional=False), "R16.2",
-                "every-payload-is-appended", "a path through add_no_format_frame_data returns without appending the "
-                "new record (payloads can be dropped)", add.where)
 
-    # ------------------------------------------------------------------ R16.2
-    field = None
-    for name in ix.instance_fields(lf):
-        t = ix.field_type(lf, name)
-        if t is not None and t[0] == "list" and t[1] == ("inst", nf):
-            field = name
-    if field is None:
-        raise AnalysisError("LogicalFile field holding the list of no-format records not found")
+    def leads_to_append(stmt):
+        if isinstance(stmt, (ast.If, ast.For, ast.While, ast.Try, ast.With)):
+            return False
+        for x in ast.walk(stmt):
+            if x is ap.node:
+                return True
+            if isinstance(x, ast.Call) and ap.func is not add:
+                tg = te.site_targets(add, x)
+                if any(t is ap.func or ap.func in chk.cg.reachable([t]) for t in tg):
+                    return True
+        return False
+    app = g.nodes_where(leads_to_append)
+    chk.require(bool(app) and g.must_pass_through(app, ENTRY, EXIT, exceptional=False), "R16.2",
+                "no-exit-avoids-the-append", "a path through add_no_format_frame_data returns without appending the "
+                "new record (payloads can be dropped)", add.where)
+    target = call_recv(appends[0].value)
+    plain = target[0] == "attr" and target[1] == SELF
+    chk.require(plain, "R16.2", "records-kept-in-one-list",
+                f"the new record is appended to `{pp(target)}`, not to one list of the logical file holding all records "
+                "in call order (grouping records by object / key changes the order they are written in)", add.where)
+    if not plain:
+        return
+    field = target[2]
     chk.info["record_list_field"] = field
+    # the field is initialised with an empty list in LogicalFile.__init__ and never stored again
     n_sites = 0
     for f in ix.functions.values():
-        for n in walk_local(f.node):
-            # stores
-            tg = n.targets if isinstance(n, ast.Assign) else ([n.target] if isinstance(n, (ast.AugAssign, ast.AnnAssign))
-                                                             else [])
-            for t in tg:
-                base = t.value if isinstance(t, ast.Subscript) else t
-                if isinstance(base, ast.Attribute) and base.attr == field:
+        if f.module.name.split(".")[-1].startswith("test"):
+            continue
+        summ = te.summary(f)
+        for obj, key, val, e in attr_stores(summ):
+            if key != ("const", field):
+                continue
+            if obj == SELF and (f.cls is None or (lf not in f.cls.mro() and f.cls not in lf.mro())):
+                continue      # another class's own field of the same name
+            n_sites += 1
+            ok = f.cls is lf and f.name == "__init__" and obj == SELF and val in (("list", ()), ) and not e.pc
+            chk.require(ok, "R16.2", f"store:{f.short}", f"the record list is replaced / edited outside its "
+                        f"initialisation (`{pp(val)[:60]}`)", e.where, nontrivial=False)
+        for e in summ.effects:
+            vals = [e.value] if e.kind == "call" else []
+            if e.kind in ("store_sub", "del") and isinstance(e.base if e.kind == "store_sub" else e.value, tuple):
+                b = e.base if e.kind == "store_sub" else e.value
+                if any(x[0] == "attr" and x[2] == field for x in subterms(b)):
                     n_sites += 1
-                    ok = f.cls is lf and f.name == "__init__" and not isinstance(t, ast.Subscript) \
-                        and isinstance(getattr(n, "value", None), ast.List) and not n.value.elts
-                    chk.require(ok, "R16.2", f"store:{f.short}", "the record list is replaced / edited outside its "
-                                "initialisation", f"{f.module.relpath}:{n.lineno}", nontrivial=False)
-            if isinstance(n, ast.Call) and isinstance(n.func, ast.Attribute) and isinstance(n.func.value, ast.Attribute) \
-                    and n.func.value.attr == field:
-                n_sites += 1
-                if n.func.attr == "append":
-                    chk.require(f is add, "R16.2", f"append:{f.short}", "records are appended outside "
-                                "add_no_format_frame_data", f"{f.module.relpath}:{n.lineno}", nontrivial=False)
-                elif n.func.attr in MUTATORS:
-                    chk.fail("R16.2", f"mutator:{f.short}.{n.func.attr}", "the record list is reordered / edited",
-                             f"{f.module.relpath}:{n.lineno}")
-            if isinstance(n, ast.Delete):
-                for t in n.targets:
-                    if field in norm(t):
-                        chk.fail("R16.2", f"delete:{f.short}", "records are deleted from the list",
-                                 f"{f.module.relpath}:{n.lineno}")
+                    chk.fail("R16.2", f"edit:{f.short}", f"records are replaced in / deleted from the list", e.where)
+            for v in vals:
+                for x in subterms(v):
+                    if x[0] == "call" and x[1][0] == "attr" and x[1][1][0] == "attr" and x[1][1][2] == field:
+                        n_sites += 1
+                        m = x[1][2]
+                        if m == "append":
+                            chk.require(f is add, "R16.2", f"append:{f.short}", "records are appended outside "
+                                        "add_no_format_frame_data", e.where, nontrivial=False)
+                        elif m in MUTATORS:
+                            chk.fail("R16.2", f"mutator:{f.short}.{m}", "the record list is reordered / edited", e.where)
     chk.floor("uses of the no-format record list", n_sites, 2)
     gen = ix.get_method("DLISFile", "generator")
     chk.consult(gen)
-    ys = [n for n in walk_local(gen.node) if isinstance(n, (ast.YieldFrom, ast.Yield)) and n.value is not None
-          and field in norm(n.value)]
-    ok = len(ys) == 1 and isinstance(ys[0], ast.YieldFrom) and isinstance(ys[0].value, ast.Attribute) \
-        and ys[0].value.attr == field
+    gs = te.inline(gen, 2)
+    hits = []
+    for ypc, yt, yn, yctx in gs.yields:
+        src = None
+        if yt[0] == "star":
+            src = yt[1]
+        elif yt[0] == "elem" and yctx and yctx[-1][0] == "for" and yctx[-1][1] == yt[2]:
+            src = yt[1]
+        whole = yt[1] if yt[0] == "star" else yt
+        if any(x[0] == "attr" and x[2] == field for x in subterms(whole)) or \
+                any(c[0] == "for" and isinstance(c[2], tuple) and
+                    any(x[0] == "attr" and x[2] == field for x in subterms(c[2])) for c in yctx):
+            hits.append((src, ypc, yctx, yt))
+    ok = len(hits) == 1 and hits[0][0] is not None and hits[0][0][0] == "attr" and hits[0][0][2] == field \
+        and not hits[0][1]
     chk.require(ok, "R16.2", "yielded-in-list-order",
-                f"the generator does not yield the record list as it is ({[norm(y) for y in ys]})", gen.where)
-    run_padding_part(chk)
+                f"the generator does not yield the record list as it is "
+                f"({[(pp(h[3][1] if h[3][0] == 'star' else h[3])[:70], [pp(c) for c in h[1]]) for h in hits]})", gen.where)
 
 
 def run_padding_part(chk):
